@@ -152,16 +152,34 @@ package pppoe
 // with the automaton state. Outgoing packets are observed through the contract
 // of the sendPacket callback, which records the first packet sent by the
 // current activation (code and identifier) in function-local ghost variables.
+//
+// Silent peer ("the automaton stops after the configured number of retransmissions"):
+// gT = "a restart timer is pending": set by startTimer (restartTimer != nil), cleared by
+// stopTimer (restartTimer == nil), owned by mu like the state. Lock invariants termtimer and
+// cfgtimer: in every state that only a timeout can leave (Closing/Stopping, Req-Sent/Ack-Rcvd/
+// Ack-Sent; RFC 1661 4.4 "the restart timer is running") a timer is pending, i.e. no handler may
+// stop the timer and stay. timeout() itself runs because the timer fired: it must retransmit
+// exactly one request (which restarts the timer and decrements the counter) or leave these
+// states (separate postconditions of timeout).
 
 //@ type LCPStateMachine
 //@   ghost gA bool
 //@   ghost gB bool
-//@   owns mu: state config negotiated restartCount failureCount identifier lastIdentifier gA gB
+//@   ghost gT bool
+//@   owns mu: state config negotiated restartCount failureCount identifier lastIdentifier gA gB gT
 //@   owns timerMu: restartTimer
 //@   inv opened: self.state == LCPStateOpened ==> self.gA && self.gB
 //@   inv ackrcvd: self.state == LCPStateAckRcvd ==> self.gB
 //@   inv acksent: self.state == LCPStateAckSent ==> self.gA
 //@   inv range: LCPStateInitial <= self.state && self.state <= LCPStateOpened
+//@   inv termtimer: (self.state == LCPStateClosing || self.state == LCPStateStopping) ==> self.gT
+//@   inv cfgtimer: (self.state == LCPStateReqSent || self.state == LCPStateAckRcvd || self.state == LCPStateAckSent) ==> self.gT
+
+// Terminate phase (Closing/Stopping): entered only by closeInternal (restart counter = MaxTerminate,
+// minus the Terminate-Request just sent) or by a Terminate-Request in Opened (counter zeroed); while the
+// automaton stays in the phase the counter never grows, every Terminate-Request decrements it and timeout
+// leaves the phase at zero: at most MaxTerminate Terminate-Requests are sent to a silent peer.
+//@ pure func lcpTerm(s LCPState) bool = s == LCPStateClosing || s == LCPStateStopping
 
 //@ functype LCPStateMachine.sendPacket(protocol, data)
 //@   requires len(data) >= 4
@@ -186,19 +204,24 @@ package pppoe
 //@   ensures lcp.restartCount == 0
 
 //@ func (lcp *LCPStateMachine) startTimer
-//@   modifies lcp.restartTimer
+//@   modifies lcp.restartTimer, lcp.gT
+//@   ghost_exit lcp.gT = true
+//@   ensures lcp.restartTimer != nil
 
 //@ func (lcp *LCPStateMachine) stopTimer
-//@   modifies lcp.restartTimer
+//@   modifies lcp.restartTimer, lcp.gT
+//@   ghost_exit lcp.gT = false
+//@   ensures lcp.restartTimer == nil
 
 //@ func (lcp *LCPStateMachine) sendConfigureRequest
 //@   ghost sentCount mathint = 0
 //@   ghost firstSentCode mathint = 0 - 1
 //@   ghost firstSentID mathint = 0 - 1
-//@   modifies lcp.identifier, lcp.lastIdentifier, lcp.restartCount, lcp.restartTimer
+//@   modifies lcp.identifier, lcp.lastIdentifier, lcp.restartCount, lcp.restartTimer, lcp.gT
 //@   ghost_exit lcp.gB = false
 //@   ensures lcp.restartCount == old(lcp.restartCount) - 1 || old(lcp.restartCount) == 0 - 9223372036854775808
 //@   ensures firstSentCode == LCPCodeConfigRequest && firstSentID == lcp.lastIdentifier
+//@   ensures lcp.gT
 //@   sets firstSentCode = ite(sentCount == 0, LCPCodeConfigRequest, firstSentCode)
 //@   sets firstSentID = ite(sentCount == 0, lcp.lastIdentifier, firstSentID)
 //@   sets sentCount = sentCount + 1
@@ -207,9 +230,10 @@ package pppoe
 //@   ghost sentCount mathint = 0
 //@   ghost firstSentCode mathint = 0 - 1
 //@   ghost firstSentID mathint = 0 - 1
-//@   modifies lcp.identifier, lcp.restartCount, lcp.restartTimer
+//@   modifies lcp.identifier, lcp.restartCount, lcp.restartTimer, lcp.gT
 //@   ensures lcp.restartCount == old(lcp.restartCount) - 1 || old(lcp.restartCount) == 0 - 9223372036854775808
 //@   ensures firstSentCode == LCPCodeTermRequest
+//@   ensures lcp.gT
 //@   sets firstSentCode = ite(sentCount == 0, LCPCodeTermRequest, firstSentCode)
 //@   sets firstSentID = ite(sentCount == 0, lcp.identifier, firstSentID)
 //@   sets sentCount = sentCount + 1
@@ -235,87 +259,142 @@ package pppoe
 //@   ghost sentCount mathint = 0
 //@   ghost firstSentCode mathint = 0 - 1
 //@   ghost firstSentID mathint = 0 - 1
-//@   modifies lcp.state, lcp.config, lcp.negotiated, lcp.restartCount, lcp.identifier, lcp.lastIdentifier, lcp.restartTimer, lcp.gA, lcp.gB
+//@   modifies lcp.state, lcp.config, lcp.negotiated, lcp.restartCount, lcp.identifier, lcp.lastIdentifier, lcp.restartTimer, lcp.gT, lcp.gA, lcp.gB
 //@   ghost_exit lcp.gA = ite(err == nil, firstSentCode == LCPCodeConfigAck, old(lcp.gA))
 //@   ensures err == nil ==> firstSentID == pkt.Identifier && (firstSentCode == LCPCodeConfigAck || firstSentCode == LCPCodeConfigNak || firstSentCode == LCPCodeConfigReject)
 //@   ensures err == nil && old(lcp.state) == LCPStateOpened ==> lcp.state != LCPStateOpened
 //@   ensures err == nil && lcp.state == LCPStateOpened ==> old(lcp.state) == LCPStateAckRcvd && firstSentCode == LCPCodeConfigAck
 //@   ensures err != nil ==> lcp.state == old(lcp.state) && lcp.gA == old(lcp.gA) && lcp.gB == old(lcp.gB)
+//@   ensures lcp.termtimer
+//@   ensures lcp.cfgtimer
 //@   ensures lcp.inv
+//@   ensures lcpTerm(old(lcp.state)) && lcpTerm(lcp.state) ==> lcp.restartCount <= old(lcp.restartCount)
+//@   ensures lcpTerm(lcp.state) ==> lcpTerm(old(lcp.state))
 
 //@ func (lcp *LCPStateMachine) receiveConfigureAck
 //@   requires pkt != nil && lcp.inv
-//@   modifies lcp.state, lcp.restartCount, lcp.identifier, lcp.lastIdentifier, lcp.restartTimer, lcp.gA, lcp.gB
+//@   modifies lcp.state, lcp.restartCount, lcp.identifier, lcp.lastIdentifier, lcp.restartTimer, lcp.gT, lcp.gA, lcp.gB
 //@   ghost_exit lcp.gB = ite(pkt.Identifier == old(lcp.lastIdentifier) && (old(lcp.state) == LCPStateReqSent || old(lcp.state) == LCPStateAckSent), true, lcp.gB)
 //@   ensures pkt.Identifier != old(lcp.lastIdentifier) ==> lcp.state == old(lcp.state) && lcp.gA == old(lcp.gA) && lcp.gB == old(lcp.gB)
 //@   ensures old(lcp.state) == LCPStateOpened && pkt.Identifier == old(lcp.lastIdentifier) ==> lcp.state != LCPStateOpened
 //@   ensures lcp.state == LCPStateOpened && old(lcp.state) != LCPStateOpened ==> old(lcp.state) == LCPStateAckSent && pkt.Identifier == old(lcp.lastIdentifier)
+//@   ensures lcp.termtimer
+//@   ensures lcp.cfgtimer
 //@   ensures lcp.inv
+//@   ensures lcpTerm(old(lcp.state)) && lcpTerm(lcp.state) ==> lcp.restartCount <= old(lcp.restartCount)
+//@   ensures lcpTerm(lcp.state) ==> lcpTerm(old(lcp.state))
 
 //@ func (lcp *LCPStateMachine) receiveConfigureNak
 //@   requires pkt != nil && lcp.inv
-//@   modifies lcp.state, lcp.config, lcp.negotiated, lcp.failureCount, lcp.restartCount, lcp.identifier, lcp.lastIdentifier, lcp.restartTimer, lcp.gB
+//@   modifies lcp.state, lcp.config, lcp.negotiated, lcp.failureCount, lcp.restartCount, lcp.identifier, lcp.lastIdentifier, lcp.restartTimer, lcp.gT, lcp.gB
+//@   ensures pkt.Identifier != old(lcp.lastIdentifier) ==> lcp.state == old(lcp.state) && lcp.gB == old(lcp.gB) && lcp.restartCount == old(lcp.restartCount) && lcp.gT == old(lcp.gT)
 //@   ensures old(lcp.state) == LCPStateOpened && pkt.Identifier == old(lcp.lastIdentifier) && err == nil ==> lcp.state != LCPStateOpened
 //@   ensures lcp.state == LCPStateOpened ==> old(lcp.state) == LCPStateOpened
+//@   ensures lcp.termtimer
+//@   ensures lcp.cfgtimer
 //@   ensures lcp.inv
+//@   ensures lcpTerm(old(lcp.state)) && lcpTerm(lcp.state) ==> lcp.restartCount <= old(lcp.restartCount)
+//@   ensures lcpTerm(lcp.state) ==> lcpTerm(old(lcp.state))
 
 //@ func (lcp *LCPStateMachine) receiveConfigureReject
 //@   requires pkt != nil && lcp.inv
-//@   modifies lcp.state, lcp.config, lcp.restartCount, lcp.identifier, lcp.lastIdentifier, lcp.restartTimer, lcp.gB
+//@   modifies lcp.state, lcp.config, lcp.restartCount, lcp.identifier, lcp.lastIdentifier, lcp.restartTimer, lcp.gT, lcp.gB
+//@   ensures pkt.Identifier != old(lcp.lastIdentifier) ==> lcp.state == old(lcp.state) && lcp.gB == old(lcp.gB) && lcp.restartCount == old(lcp.restartCount) && lcp.gT == old(lcp.gT)
 //@   ensures old(lcp.state) == LCPStateOpened && pkt.Identifier == old(lcp.lastIdentifier) && err == nil ==> lcp.state != LCPStateOpened
 //@   ensures lcp.state == LCPStateOpened ==> old(lcp.state) == LCPStateOpened
+//@   ensures lcp.termtimer
+//@   ensures lcp.cfgtimer
 //@   ensures lcp.inv
+//@   ensures lcpTerm(old(lcp.state)) && lcpTerm(lcp.state) ==> lcp.restartCount <= old(lcp.restartCount)
+//@   ensures lcpTerm(lcp.state) ==> lcpTerm(old(lcp.state))
 
 //@ func (lcp *LCPStateMachine) receiveTerminateRequest
 //@   requires pkt != nil && lcp.inv
 //@   ghost sentCount mathint = 0
 //@   ghost firstSentCode mathint = 0 - 1
 //@   ghost firstSentID mathint = 0 - 1
-//@   modifies lcp.state, lcp.restartCount, lcp.restartTimer
+//@   modifies lcp.state, lcp.restartCount, lcp.restartTimer, lcp.gT
 //@   ensures lcp.state != LCPStateOpened
 //@   ensures old(lcp.state) != LCPStateInitial && old(lcp.state) != LCPStateStarting ==> firstSentCode == LCPCodeTermAck && firstSentID == pkt.Identifier
+//@   ensures lcp.termtimer
+//@   ensures lcp.cfgtimer
 //@   ensures lcp.inv
+//@   ensures lcpTerm(old(lcp.state)) && lcpTerm(lcp.state) ==> lcp.restartCount <= old(lcp.restartCount)
+//@   ensures old(lcp.state) == LCPStateOpened ==> lcp.state == LCPStateStopping && lcp.restartCount == 0
+//@   ensures lcpTerm(lcp.state) ==> lcpTerm(old(lcp.state)) || old(lcp.state) == LCPStateOpened
 
 //@ func (lcp *LCPStateMachine) receiveTerminateAck
 //@   requires pkt != nil && lcp.inv
-//@   modifies lcp.state, lcp.restartCount, lcp.identifier, lcp.lastIdentifier, lcp.restartTimer, lcp.gB
+//@   modifies lcp.state, lcp.restartCount, lcp.identifier, lcp.lastIdentifier, lcp.restartTimer, lcp.gT, lcp.gB
 //@   ensures lcp.state != LCPStateOpened
+//@   ensures lcp.termtimer
+//@   ensures lcp.cfgtimer
 //@   ensures lcp.inv
+//@   ensures lcpTerm(old(lcp.state)) && lcpTerm(lcp.state) ==> lcp.restartCount <= old(lcp.restartCount)
+//@   ensures lcpTerm(lcp.state) ==> lcpTerm(old(lcp.state))
 
 //@ func (lcp *LCPStateMachine) closeInternal
 //@   requires lcp.inv
-//@   modifies lcp.state, lcp.restartCount, lcp.identifier, lcp.restartTimer
+//@   modifies lcp.state, lcp.restartCount, lcp.identifier, lcp.restartTimer, lcp.gT
 //@   ensures lcp.state != LCPStateOpened
+//@   ensures lcp.termtimer
+//@   ensures lcp.cfgtimer
 //@   ensures lcp.inv
+//@   ensures old(lcp.state) >= LCPStateReqSent ==> lcp.state == LCPStateClosing && (lcp.restartCount == lcp.config.MaxTerminate - 1 || lcp.config.MaxTerminate == 0 - 9223372036854775808)
+//@   ensures lcpTerm(lcp.state) ==> lcpTerm(old(lcp.state)) || old(lcp.state) >= LCPStateReqSent
+//@   ensures lcpTerm(old(lcp.state)) && lcpTerm(lcp.state) ==> lcp.restartCount <= old(lcp.restartCount)
 
 //@ func (lcp *LCPStateMachine) Down
 //@   ensures lcp.state != LCPStateOpened
+//@   ensures lcpTerm(locked(lcp.state)) && lcpTerm(lcp.state) ==> lcp.restartCount <= locked(lcp.restartCount)
+//@   ensures lcpTerm(lcp.state) ==> lcpTerm(locked(lcp.state))
 
 //@ func (lcp *LCPStateMachine) Close
 //@   ensures lcp.state != LCPStateOpened
+//@   ensures lcpTerm(locked(lcp.state)) && lcpTerm(lcp.state) ==> lcp.restartCount <= locked(lcp.restartCount)
+//@   ensures lcpTerm(lcp.state) && !lcpTerm(locked(lcp.state)) ==> (lcp.restartCount == lcp.config.MaxTerminate - 1 || lcp.config.MaxTerminate == 0 - 9223372036854775808)
 
 //@ func (lcp *LCPStateMachine) Up
 //@   ensures lcp.state == LCPStateOpened ==> locked(lcp.state) == LCPStateOpened
+//@   ensures lcpTerm(locked(lcp.state)) && lcpTerm(lcp.state) ==> lcp.restartCount <= locked(lcp.restartCount)
+//@   ensures lcpTerm(lcp.state) ==> lcpTerm(locked(lcp.state))
 
 //@ func (lcp *LCPStateMachine) Open
 //@   ensures lcp.state == LCPStateOpened ==> locked(lcp.state) == LCPStateOpened
+//@   ensures lcpTerm(locked(lcp.state)) && lcpTerm(lcp.state) ==> lcp.restartCount <= locked(lcp.restartCount)
+//@   ensures lcpTerm(lcp.state) ==> lcpTerm(locked(lcp.state))
 
 //@ func (lcp *LCPStateMachine) timeout
+//@   ghost sentCount mathint = 0
+//@   ghost firstSentCode mathint = 0 - 1
+//@   ghost firstSentID mathint = 0 - 1
+//@   ensures lcp.state == LCPStateClosing || lcp.state == LCPStateStopping ==> firstSentCode == LCPCodeTermRequest && sentCount == 1
+//@   ensures lcp.state == LCPStateReqSent || lcp.state == LCPStateAckRcvd || lcp.state == LCPStateAckSent ==> firstSentCode == LCPCodeConfigRequest && sentCount == 1
 //@   ensures locked(lcp.restartCount) > 0 && (locked(lcp.state) == LCPStateReqSent || locked(lcp.state) == LCPStateAckRcvd || locked(lcp.state) == LCPStateAckSent || locked(lcp.state) == LCPStateClosing || locked(lcp.state) == LCPStateStopping) ==> lcp.restartCount == locked(lcp.restartCount) - 1 && (lcp.state == locked(lcp.state) || (locked(lcp.state) == LCPStateAckRcvd && lcp.state == LCPStateReqSent))
 //@   ensures locked(lcp.restartCount) <= 0 ==> lcp.state != LCPStateReqSent && lcp.state != LCPStateAckRcvd && lcp.state != LCPStateAckSent && lcp.state != LCPStateClosing && lcp.state != LCPStateStopping
 //@   ensures lcp.state == LCPStateOpened ==> locked(lcp.state) == LCPStateOpened
+//@   ensures lcpTerm(locked(lcp.state)) && lcpTerm(lcp.state) ==> lcp.restartCount <= locked(lcp.restartCount)
+//@   ensures lcpTerm(lcp.state) ==> lcpTerm(locked(lcp.state))
 
 //@ func (lcp *LCPStateMachine) receiveCodeReject
 //@   requires pkt != nil && lcp.inv
-//@   modifies lcp.state, lcp.restartCount, lcp.identifier, lcp.restartTimer
+//@   modifies lcp.state, lcp.restartCount, lcp.identifier, lcp.restartTimer, lcp.gT
 //@   ensures lcp.state == LCPStateOpened ==> old(lcp.state) == LCPStateOpened
+//@   ensures lcp.termtimer
+//@   ensures lcp.cfgtimer
 //@   ensures lcp.inv
+//@   ensures lcpTerm(old(lcp.state)) && lcpTerm(lcp.state) ==> lcp.restartCount <= old(lcp.restartCount)
+//@   ensures lcpTerm(lcp.state) && !lcpTerm(old(lcp.state)) ==> (lcp.restartCount == lcp.config.MaxTerminate - 1 || lcp.config.MaxTerminate == 0 - 9223372036854775808)
 
 //@ func (lcp *LCPStateMachine) receiveProtocolReject
 //@   requires pkt != nil && lcp.inv
-//@   modifies lcp.state, lcp.restartCount, lcp.identifier, lcp.restartTimer
+//@   modifies lcp.state, lcp.restartCount, lcp.identifier, lcp.restartTimer, lcp.gT
 //@   ensures lcp.state == LCPStateOpened ==> old(lcp.state) == LCPStateOpened
+//@   ensures lcp.termtimer
+//@   ensures lcp.cfgtimer
 //@   ensures lcp.inv
+//@   ensures lcpTerm(old(lcp.state)) && lcpTerm(lcp.state) ==> lcp.restartCount <= old(lcp.restartCount)
+//@   ensures lcpTerm(lcp.state) && !lcpTerm(old(lcp.state)) ==> (lcp.restartCount == lcp.config.MaxTerminate - 1 || lcp.config.MaxTerminate == 0 - 9223372036854775808)
 
 //@ func (lcp *LCPStateMachine) receiveEchoRequest
 //@   requires pkt != nil && lcp.inv
@@ -336,6 +415,479 @@ package pppoe
 
 //@ func (lcp *LCPStateMachine) GetState
 //@   ensures result == LCPStateOpened ==> lcp.gA && lcp.gB
+
+// ---- ipcp.go: IPCP automaton (C11) ----
+//
+// Same ghost state and contract shapes as for LCP above: gA/gB = mutual acknowledgement of the most
+// recent Configure-Requests, gT = "a restart timer is pending" (set by startTimer, cleared by stopTimer).
+// The restart counter is (re)initialised to MaxRetransmit (10 when unset) for both the configure and
+// the terminate phase (IPCPConfig has no separate Max-Terminate). "The address assigned to the session"
+// is ipcp.config.PeerIP (SetPeerIP, or the pool allocation made by Up); nil = no address assigned.
+
+//@ type IPCPStateMachine
+//@   ghost gA bool
+//@   ghost gB bool
+//@   ghost gT bool
+//@   owns mu: state config negotiated restartCount identifier lastIdentifier gA gB gT
+//@   owns timerMu: restartTimer
+//@   inv opened: self.state == IPCPStateOpened ==> self.gA && self.gB
+//@   inv ackrcvd: self.state == IPCPStateAckRcvd ==> self.gB
+//@   inv acksent: self.state == IPCPStateAckSent ==> self.gA
+//@   inv range: IPCPStateInitial <= self.state && self.state <= IPCPStateOpened
+//@   inv termtimer: (self.state == IPCPStateClosing || self.state == IPCPStateStopping) ==> self.gT
+//@   inv cfgtimer: (self.state == IPCPStateReqSent || self.state == IPCPStateAckRcvd || self.state == IPCPStateAckSent) ==> self.gT
+
+//@ pure func ipcpTerm(s IPCPState) bool = s == IPCPStateClosing || s == IPCPStateStopping
+//@ pure func ipcpMax(n int) int = ite(n == 0, 10, n)
+
+//@ functype IPCPStateMachine.sendPacket(protocol, data)
+//@   requires len(data) >= 4
+//@   modifies nothing
+//@   sets firstSentCode = ite(sentCount == 0, data[0], firstSentCode)
+//@   sets firstSentID = ite(sentCount == 0, data[1], firstSentID)
+//@   sets sentCount = sentCount + 1
+
+//@ functype IPCPStateMachine.onStateChange(oldState, newState)
+//@   modifies nothing
+
+//@ func (ipcp *IPCPStateMachine) setState
+//@   modifies ipcp.state
+//@   ensures ipcp.state == newState
+
+//@ func (ipcp *IPCPStateMachine) initializeRestartCount
+//@   modifies ipcp.restartCount
+//@   ensures ipcp.restartCount == ipcpMax(ipcp.config.MaxRetransmit)
+
+//@ func (ipcp *IPCPStateMachine) zeroRestartCount
+//@   modifies ipcp.restartCount
+//@   ensures ipcp.restartCount == 0
+
+//@ func (ipcp *IPCPStateMachine) startTimer
+//@   modifies ipcp.restartTimer, ipcp.gT
+//@   ghost_exit ipcp.gT = true
+//@   ensures ipcp.restartTimer != nil
+
+//@ func (ipcp *IPCPStateMachine) stopTimer
+//@   modifies ipcp.restartTimer, ipcp.gT
+//@   ghost_exit ipcp.gT = false
+//@   ensures ipcp.restartTimer == nil
+
+//@ func (ipcp *IPCPStateMachine) sendConfigureRequest
+//@   ghost sentCount mathint = 0
+//@   ghost firstSentCode mathint = 0 - 1
+//@   ghost firstSentID mathint = 0 - 1
+//@   modifies ipcp.identifier, ipcp.lastIdentifier, ipcp.restartCount, ipcp.restartTimer, ipcp.gT
+//@   ghost_exit ipcp.gB = false
+//@   ensures ipcp.restartCount == old(ipcp.restartCount) - 1 || old(ipcp.restartCount) == 0 - 9223372036854775808
+//@   ensures firstSentCode == LCPCodeConfigRequest && firstSentID == ipcp.lastIdentifier
+//@   ensures ipcp.gT
+//@   sets firstSentCode = ite(sentCount == 0, LCPCodeConfigRequest, firstSentCode)
+//@   sets firstSentID = ite(sentCount == 0, ipcp.lastIdentifier, firstSentID)
+//@   sets sentCount = sentCount + 1
+
+//@ func (ipcp *IPCPStateMachine) sendTerminateRequest
+//@   ghost sentCount mathint = 0
+//@   ghost firstSentCode mathint = 0 - 1
+//@   ghost firstSentID mathint = 0 - 1
+//@   modifies ipcp.identifier, ipcp.restartCount, ipcp.restartTimer, ipcp.gT
+//@   ensures ipcp.restartCount == old(ipcp.restartCount) - 1 || old(ipcp.restartCount) == 0 - 9223372036854775808
+//@   ensures firstSentCode == LCPCodeTermRequest
+//@   ensures ipcp.gT
+//@   sets firstSentCode = ite(sentCount == 0, LCPCodeTermRequest, firstSentCode)
+//@   sets firstSentID = ite(sentCount == 0, ipcp.identifier, firstSentID)
+//@   sets sentCount = sentCount + 1
+
+//@ func (ipcp *IPCPStateMachine) sendTerminateAck
+//@   ghost sentCount mathint = 0
+//@   ghost firstSentCode mathint = 0 - 1
+//@   ghost firstSentID mathint = 0 - 1
+//@   modifies nothing
+//@   ensures firstSentCode == LCPCodeTermAck && firstSentID == identifier
+//@   sets firstSentCode = ite(sentCount == 0, LCPCodeTermAck, firstSentCode)
+//@   sets firstSentID = ite(sentCount == 0, identifier, firstSentID)
+//@   sets sentCount = sentCount + 1
+
+//@ iface IPPoolAllocator.Allocate(sessionID)
+//@   modifies nothing
+
+//@ iface IPPoolAllocator.Release(sessionID)
+//@   modifies nothing
+
+// IPCP acknowledges only the address assigned to the session: an IP-Address option that does not carry
+// the assigned address (or any IP-Address option while no address is assigned) puts an entry on the nak
+// or reject list, so the reply is not a Configure-Ack; and every IP-Address option on the ack list
+// carries the assigned address.
+//@ func (ipcp *IPCPStateMachine) processConfigureOptions
+//@   modifies ipcp.negotiated
+//@   ensures len(nak) >= 0 && len(reject) >= 0 && len(ack) >= 0
+//@   ensures len(nak) + len(reject) == 0 ==> (forall i int :: 0 <= i < len(opts) && opts[i].Type == IPCPOptIPAddress ==> ipcp.config.PeerIP != nil && ipkey(opts[i].Data) == ipkey(ipcp.config.PeerIP))
+//@   sets reqAddrOK = (forall i int :: 0 <= i < len(opts) && opts[i].Type == IPCPOptIPAddress ==> ipcp.config.PeerIP != nil && ipkey(opts[i].Data) == ipkey(ipcp.config.PeerIP))
+//@   sets reqClean = len(nak) + len(reject) == 0
+
+//@ loop IPCPStateMachine.processConfigureOptions#1
+//@   invariant len(nak) >= 0 && len(reject) >= 0 && len(ack) >= 0
+//@   invariant len(nak) + len(reject) == 0 ==> (forall i int :: 0 <= i < ridx && opts[i].Type == IPCPOptIPAddress ==> ipcp.config.PeerIP != nil && ipkey(opts[i].Data) == ipkey(ipcp.config.PeerIP))
+
+//@ func (ipcp *IPCPStateMachine) receiveConfigureRequest
+//@   requires pkt != nil && ipcp.inv
+//@   ghost sentCount mathint = 0
+//@   ghost firstSentCode mathint = 0 - 1
+//@   ghost firstSentID mathint = 0 - 1
+//@   ghost reqAddrOK bool = true
+//@   ghost reqClean bool = false
+//@   modifies ipcp.state, ipcp.negotiated, ipcp.restartCount, ipcp.identifier, ipcp.lastIdentifier, ipcp.restartTimer, ipcp.gT, ipcp.gA, ipcp.gB
+//@   ghost_exit ipcp.gA = ite(err == nil, firstSentCode == LCPCodeConfigAck, old(ipcp.gA))
+//@   ensures err == nil ==> firstSentID == pkt.Identifier && (firstSentCode == LCPCodeConfigAck || firstSentCode == LCPCodeConfigNak || firstSentCode == LCPCodeConfigReject)
+//@   ensures err == nil && old(ipcp.state) == IPCPStateOpened ==> ipcp.state != IPCPStateOpened
+//@   ensures err == nil && ipcp.state == IPCPStateOpened ==> old(ipcp.state) == IPCPStateAckRcvd && firstSentCode == LCPCodeConfigAck
+//@   ensures err != nil ==> ipcp.state == old(ipcp.state) && ipcp.gA == old(ipcp.gA) && ipcp.gB == old(ipcp.gB)
+//@   ensures err == nil ==> (firstSentCode == LCPCodeConfigAck <==> reqClean)
+//@   ensures err == nil && firstSentCode == LCPCodeConfigAck ==> reqAddrOK
+//@   ensures ipcp.termtimer
+//@   ensures ipcp.cfgtimer
+//@   ensures ipcp.inv
+//@   ensures ipcpTerm(old(ipcp.state)) && ipcpTerm(ipcp.state) ==> ipcp.restartCount <= old(ipcp.restartCount)
+//@   ensures ipcpTerm(ipcp.state) ==> ipcpTerm(old(ipcp.state))
+
+//@ func (ipcp *IPCPStateMachine) receiveConfigureAck
+//@   requires pkt != nil && ipcp.inv
+//@   modifies ipcp.state, ipcp.restartCount, ipcp.identifier, ipcp.lastIdentifier, ipcp.restartTimer, ipcp.gT, ipcp.gA, ipcp.gB
+//@   ghost_exit ipcp.gB = ite(pkt.Identifier == old(ipcp.lastIdentifier) && (old(ipcp.state) == IPCPStateReqSent || old(ipcp.state) == IPCPStateAckSent), true, ipcp.gB)
+//@   ensures pkt.Identifier != old(ipcp.lastIdentifier) ==> ipcp.state == old(ipcp.state) && ipcp.gA == old(ipcp.gA) && ipcp.gB == old(ipcp.gB) && ipcp.restartCount == old(ipcp.restartCount) && ipcp.gT == old(ipcp.gT)
+//@   ensures old(ipcp.state) == IPCPStateOpened && pkt.Identifier == old(ipcp.lastIdentifier) ==> ipcp.state != IPCPStateOpened
+//@   ensures ipcp.state == IPCPStateOpened && old(ipcp.state) != IPCPStateOpened ==> old(ipcp.state) == IPCPStateAckSent && pkt.Identifier == old(ipcp.lastIdentifier)
+//@   ensures ipcp.termtimer
+//@   ensures ipcp.cfgtimer
+//@   ensures ipcp.inv
+//@   ensures ipcpTerm(old(ipcp.state)) && ipcpTerm(ipcp.state) ==> ipcp.restartCount <= old(ipcp.restartCount)
+//@   ensures ipcpTerm(ipcp.state) ==> ipcpTerm(old(ipcp.state))
+
+//@ func (ipcp *IPCPStateMachine) receiveConfigureNak
+//@   requires pkt != nil && ipcp.inv
+//@   modifies ipcp.state, ipcp.negotiated, ipcp.restartCount, ipcp.identifier, ipcp.lastIdentifier, ipcp.restartTimer, ipcp.gT, ipcp.gB
+//@   ensures pkt.Identifier != old(ipcp.lastIdentifier) ==> ipcp.state == old(ipcp.state) && ipcp.gA == old(ipcp.gA) && ipcp.gB == old(ipcp.gB) && ipcp.restartCount == old(ipcp.restartCount) && ipcp.gT == old(ipcp.gT)
+//@   ensures old(ipcp.state) == IPCPStateOpened && pkt.Identifier == old(ipcp.lastIdentifier) && err == nil ==> ipcp.state != IPCPStateOpened
+//@   ensures ipcp.state == IPCPStateOpened ==> old(ipcp.state) == IPCPStateOpened
+//@   ensures ipcp.termtimer
+//@   ensures ipcp.cfgtimer
+//@   ensures ipcp.inv
+//@   ensures ipcpTerm(old(ipcp.state)) && ipcpTerm(ipcp.state) ==> ipcp.restartCount <= old(ipcp.restartCount)
+//@   ensures ipcpTerm(ipcp.state) ==> ipcpTerm(old(ipcp.state))
+
+//@ func (ipcp *IPCPStateMachine) receiveConfigureReject
+//@   requires pkt != nil && ipcp.inv
+//@   modifies ipcp.state, ipcp.restartCount, ipcp.identifier, ipcp.lastIdentifier, ipcp.restartTimer, ipcp.gT, ipcp.gB
+//@   ensures pkt.Identifier != old(ipcp.lastIdentifier) ==> ipcp.state == old(ipcp.state) && ipcp.gA == old(ipcp.gA) && ipcp.gB == old(ipcp.gB) && ipcp.restartCount == old(ipcp.restartCount) && ipcp.gT == old(ipcp.gT)
+//@   ensures old(ipcp.state) == IPCPStateOpened && pkt.Identifier == old(ipcp.lastIdentifier) && err == nil ==> ipcp.state != IPCPStateOpened
+//@   ensures ipcp.state == IPCPStateOpened ==> old(ipcp.state) == IPCPStateOpened
+//@   ensures ipcp.termtimer
+//@   ensures ipcp.cfgtimer
+//@   ensures ipcp.inv
+//@   ensures ipcpTerm(old(ipcp.state)) && ipcpTerm(ipcp.state) ==> ipcp.restartCount <= old(ipcp.restartCount)
+//@   ensures ipcpTerm(ipcp.state) ==> ipcpTerm(old(ipcp.state))
+
+//@ func (ipcp *IPCPStateMachine) receiveTerminateRequest
+//@   requires pkt != nil && ipcp.inv
+//@   ghost sentCount mathint = 0
+//@   ghost firstSentCode mathint = 0 - 1
+//@   ghost firstSentID mathint = 0 - 1
+//@   modifies ipcp.state, ipcp.restartCount, ipcp.restartTimer, ipcp.gT
+//@   ensures ipcp.state != IPCPStateOpened
+//@   ensures old(ipcp.state) != IPCPStateInitial && old(ipcp.state) != IPCPStateStarting ==> firstSentCode == LCPCodeTermAck && firstSentID == pkt.Identifier
+//@   ensures ipcp.termtimer
+//@   ensures ipcp.cfgtimer
+//@   ensures ipcp.inv
+//@   ensures ipcpTerm(old(ipcp.state)) && ipcpTerm(ipcp.state) ==> ipcp.restartCount <= old(ipcp.restartCount)
+//@   ensures old(ipcp.state) == IPCPStateOpened ==> ipcp.state == IPCPStateStopping && ipcp.restartCount == 0
+//@   ensures ipcpTerm(ipcp.state) ==> ipcpTerm(old(ipcp.state)) || old(ipcp.state) == IPCPStateOpened
+
+//@ func (ipcp *IPCPStateMachine) receiveTerminateAck
+//@   requires pkt != nil && ipcp.inv
+//@   modifies ipcp.state, ipcp.restartCount, ipcp.identifier, ipcp.lastIdentifier, ipcp.restartTimer, ipcp.gT, ipcp.gB
+//@   ensures ipcp.state != IPCPStateOpened
+//@   ensures ipcp.termtimer
+//@   ensures ipcp.cfgtimer
+//@   ensures ipcp.inv
+//@   ensures ipcpTerm(old(ipcp.state)) && ipcpTerm(ipcp.state) ==> ipcp.restartCount <= old(ipcp.restartCount)
+//@   ensures ipcpTerm(ipcp.state) ==> ipcpTerm(old(ipcp.state))
+
+//@ func (ipcp *IPCPStateMachine) closeInternal
+//@   requires ipcp.inv
+//@   modifies ipcp.state, ipcp.restartCount, ipcp.identifier, ipcp.restartTimer, ipcp.gT
+//@   ensures ipcp.state != IPCPStateOpened
+//@   ensures ipcp.termtimer
+//@   ensures ipcp.cfgtimer
+//@   ensures ipcp.inv
+//@   ensures old(ipcp.state) >= IPCPStateReqSent ==> ipcp.state == IPCPStateClosing && (ipcp.restartCount == ipcpMax(ipcp.config.MaxRetransmit) - 1 || ipcp.config.MaxRetransmit == 0 - 9223372036854775808)
+//@   ensures ipcpTerm(ipcp.state) ==> ipcpTerm(old(ipcp.state)) || old(ipcp.state) >= IPCPStateReqSent
+//@   ensures ipcpTerm(old(ipcp.state)) && ipcpTerm(ipcp.state) ==> ipcp.restartCount <= old(ipcp.restartCount)
+
+//@ func (ipcp *IPCPStateMachine) Down
+//@   ensures ipcp.state != IPCPStateOpened
+//@   ensures ipcpTerm(locked(ipcp.state)) && ipcpTerm(ipcp.state) ==> ipcp.restartCount <= locked(ipcp.restartCount)
+//@   ensures ipcpTerm(ipcp.state) ==> ipcpTerm(locked(ipcp.state))
+
+//@ func (ipcp *IPCPStateMachine) Close
+//@   ensures ipcp.state != IPCPStateOpened
+//@   ensures ipcpTerm(locked(ipcp.state)) && ipcpTerm(ipcp.state) ==> ipcp.restartCount <= locked(ipcp.restartCount)
+//@   ensures ipcpTerm(ipcp.state) && !ipcpTerm(locked(ipcp.state)) ==> (ipcp.restartCount == ipcpMax(ipcp.config.MaxRetransmit) - 1 || ipcp.config.MaxRetransmit == 0 - 9223372036854775808)
+
+//@ func (ipcp *IPCPStateMachine) Up
+//@   ensures ipcp.state == IPCPStateOpened ==> locked(ipcp.state) == IPCPStateOpened
+//@   ensures ipcpTerm(locked(ipcp.state)) && ipcpTerm(ipcp.state) ==> ipcp.restartCount <= locked(ipcp.restartCount)
+//@   ensures ipcpTerm(ipcp.state) ==> ipcpTerm(locked(ipcp.state))
+
+//@ func (ipcp *IPCPStateMachine) Open
+//@   ensures ipcp.state == IPCPStateOpened ==> locked(ipcp.state) == IPCPStateOpened
+//@   ensures ipcpTerm(locked(ipcp.state)) && ipcpTerm(ipcp.state) ==> ipcp.restartCount <= locked(ipcp.restartCount)
+//@   ensures ipcpTerm(ipcp.state) ==> ipcpTerm(locked(ipcp.state))
+
+//@ func (ipcp *IPCPStateMachine) timeout
+//@   ghost sentCount mathint = 0
+//@   ghost firstSentCode mathint = 0 - 1
+//@   ghost firstSentID mathint = 0 - 1
+//@   ensures ipcp.state == IPCPStateClosing || ipcp.state == IPCPStateStopping ==> firstSentCode == LCPCodeTermRequest && sentCount == 1
+//@   ensures ipcp.state == IPCPStateReqSent || ipcp.state == IPCPStateAckRcvd || ipcp.state == IPCPStateAckSent ==> firstSentCode == LCPCodeConfigRequest && sentCount == 1
+//@   ensures locked(ipcp.restartCount) > 0 && (locked(ipcp.state) == IPCPStateReqSent || locked(ipcp.state) == IPCPStateAckRcvd || locked(ipcp.state) == IPCPStateAckSent || locked(ipcp.state) == IPCPStateClosing || locked(ipcp.state) == IPCPStateStopping) ==> ipcp.restartCount == locked(ipcp.restartCount) - 1 && (ipcp.state == locked(ipcp.state) || (locked(ipcp.state) == IPCPStateAckRcvd && ipcp.state == IPCPStateReqSent))
+//@   ensures locked(ipcp.restartCount) <= 0 ==> ipcp.state != IPCPStateReqSent && ipcp.state != IPCPStateAckRcvd && ipcp.state != IPCPStateAckSent && ipcp.state != IPCPStateClosing && ipcp.state != IPCPStateStopping
+//@   ensures ipcp.state == IPCPStateOpened ==> locked(ipcp.state) == IPCPStateOpened
+//@   ensures ipcpTerm(locked(ipcp.state)) && ipcpTerm(ipcp.state) ==> ipcp.restartCount <= locked(ipcp.restartCount)
+//@   ensures ipcpTerm(ipcp.state) ==> ipcpTerm(locked(ipcp.state))
+
+//@ func (ipcp *IPCPStateMachine) ReceivePacket
+
+//@ func (ipcp *IPCPStateMachine) IsOpened
+//@   ensures result ==> ipcp.gA && ipcp.gB
+
+//@ func (ipcp *IPCPStateMachine) GetState
+//@   ensures result == IPCPStateOpened ==> ipcp.gA && ipcp.gB
+
+//@ func (ipcp *IPCPStateMachine) SetPeerIP
+//@   ensures ipcp.state == locked(ipcp.state)
+
+// ---- ipv6cp.go: IPv6CP automaton (C11) ----
+//
+// Same contract shapes as for LCP and IPCP.
+
+//@ type IPV6CPStateMachine
+//@   ghost gA bool
+//@   ghost gB bool
+//@   ghost gT bool
+//@   owns mu: state config negotiated restartCount identifier lastIdentifier gA gB gT
+//@   owns timerMu: restartTimer
+//@   inv opened: self.state == IPV6CPStateOpened ==> self.gA && self.gB
+//@   inv ackrcvd: self.state == IPV6CPStateAckRcvd ==> self.gB
+//@   inv acksent: self.state == IPV6CPStateAckSent ==> self.gA
+//@   inv range: IPV6CPStateInitial <= self.state && self.state <= IPV6CPStateOpened
+//@   inv termtimer: (self.state == IPV6CPStateClosing || self.state == IPV6CPStateStopping) ==> self.gT
+//@   inv cfgtimer: (self.state == IPV6CPStateReqSent || self.state == IPV6CPStateAckRcvd || self.state == IPV6CPStateAckSent) ==> self.gT
+
+//@ pure func ipv6cpTerm(s IPV6CPState) bool = s == IPV6CPStateClosing || s == IPV6CPStateStopping
+//@ pure func ipv6cpMax(n int) int = ite(n == 0, 10, n)
+
+//@ functype IPV6CPStateMachine.sendPacket(protocol, data)
+//@   requires len(data) >= 4
+//@   modifies nothing
+//@   sets firstSentCode = ite(sentCount == 0, data[0], firstSentCode)
+//@   sets firstSentID = ite(sentCount == 0, data[1], firstSentID)
+//@   sets sentCount = sentCount + 1
+
+//@ functype IPV6CPStateMachine.onStateChange(oldState, newState)
+//@   modifies nothing
+
+//@ func (ipv6cp *IPV6CPStateMachine) setState
+//@   modifies ipv6cp.state
+//@   ensures ipv6cp.state == newState
+
+//@ func (ipv6cp *IPV6CPStateMachine) initializeRestartCount
+//@   modifies ipv6cp.restartCount
+//@   ensures ipv6cp.restartCount == ipv6cpMax(ipv6cp.config.MaxRetransmit)
+
+//@ func (ipv6cp *IPV6CPStateMachine) zeroRestartCount
+//@   modifies ipv6cp.restartCount
+//@   ensures ipv6cp.restartCount == 0
+
+//@ func (ipv6cp *IPV6CPStateMachine) startTimer
+//@   modifies ipv6cp.restartTimer, ipv6cp.gT
+//@   ghost_exit ipv6cp.gT = true
+//@   ensures ipv6cp.restartTimer != nil
+
+//@ func (ipv6cp *IPV6CPStateMachine) stopTimer
+//@   modifies ipv6cp.restartTimer, ipv6cp.gT
+//@   ghost_exit ipv6cp.gT = false
+//@   ensures ipv6cp.restartTimer == nil
+
+//@ func (ipv6cp *IPV6CPStateMachine) sendConfigureRequest
+//@   ghost sentCount mathint = 0
+//@   ghost firstSentCode mathint = 0 - 1
+//@   ghost firstSentID mathint = 0 - 1
+//@   modifies ipv6cp.identifier, ipv6cp.lastIdentifier, ipv6cp.restartCount, ipv6cp.restartTimer, ipv6cp.gT
+//@   ghost_exit ipv6cp.gB = false
+//@   ensures ipv6cp.restartCount == old(ipv6cp.restartCount) - 1 || old(ipv6cp.restartCount) == 0 - 9223372036854775808
+//@   ensures firstSentCode == LCPCodeConfigRequest && firstSentID == ipv6cp.lastIdentifier
+//@   ensures ipv6cp.gT
+//@   sets firstSentCode = ite(sentCount == 0, LCPCodeConfigRequest, firstSentCode)
+//@   sets firstSentID = ite(sentCount == 0, ipv6cp.lastIdentifier, firstSentID)
+//@   sets sentCount = sentCount + 1
+
+//@ func (ipv6cp *IPV6CPStateMachine) sendTerminateRequest
+//@   ghost sentCount mathint = 0
+//@   ghost firstSentCode mathint = 0 - 1
+//@   ghost firstSentID mathint = 0 - 1
+//@   modifies ipv6cp.identifier, ipv6cp.restartCount, ipv6cp.restartTimer, ipv6cp.gT
+//@   ensures ipv6cp.restartCount == old(ipv6cp.restartCount) - 1 || old(ipv6cp.restartCount) == 0 - 9223372036854775808
+//@   ensures firstSentCode == LCPCodeTermRequest
+//@   ensures ipv6cp.gT
+//@   sets firstSentCode = ite(sentCount == 0, LCPCodeTermRequest, firstSentCode)
+//@   sets firstSentID = ite(sentCount == 0, ipv6cp.identifier, firstSentID)
+//@   sets sentCount = sentCount + 1
+
+//@ func (ipv6cp *IPV6CPStateMachine) sendTerminateAck
+//@   ghost sentCount mathint = 0
+//@   ghost firstSentCode mathint = 0 - 1
+//@   ghost firstSentID mathint = 0 - 1
+//@   modifies nothing
+//@   ensures firstSentCode == LCPCodeTermAck && firstSentID == identifier
+//@   sets firstSentCode = ite(sentCount == 0, LCPCodeTermAck, firstSentCode)
+//@   sets firstSentID = ite(sentCount == 0, identifier, firstSentID)
+//@   sets sentCount = sentCount + 1
+
+//@ func (ipv6cp *IPV6CPStateMachine) processConfigureOptions
+//@   modifies ipv6cp.config, ipv6cp.negotiated
+
+//@ func generateInterfaceID
+//@   trusted reads crypto/rand; writes nothing the caller can see
+//@   modifies nothing
+
+//@ func (ipv6cp *IPV6CPStateMachine) receiveConfigureRequest
+//@   requires pkt != nil && ipv6cp.inv
+//@   ghost sentCount mathint = 0
+//@   ghost firstSentCode mathint = 0 - 1
+//@   ghost firstSentID mathint = 0 - 1
+//@   modifies ipv6cp.state, ipv6cp.config, ipv6cp.negotiated, ipv6cp.restartCount, ipv6cp.identifier, ipv6cp.lastIdentifier, ipv6cp.restartTimer, ipv6cp.gT, ipv6cp.gA, ipv6cp.gB
+//@   ghost_exit ipv6cp.gA = ite(err == nil, firstSentCode == LCPCodeConfigAck, old(ipv6cp.gA))
+//@   ensures err == nil ==> firstSentID == pkt.Identifier && (firstSentCode == LCPCodeConfigAck || firstSentCode == LCPCodeConfigNak || firstSentCode == LCPCodeConfigReject)
+//@   ensures err == nil && old(ipv6cp.state) == IPV6CPStateOpened ==> ipv6cp.state != IPV6CPStateOpened
+//@   ensures err == nil && ipv6cp.state == IPV6CPStateOpened ==> old(ipv6cp.state) == IPV6CPStateAckRcvd && firstSentCode == LCPCodeConfigAck
+//@   ensures err != nil ==> ipv6cp.state == old(ipv6cp.state) && ipv6cp.gA == old(ipv6cp.gA) && ipv6cp.gB == old(ipv6cp.gB)
+//@   ensures ipv6cp.termtimer
+//@   ensures ipv6cp.cfgtimer
+//@   ensures ipv6cp.inv
+//@   ensures ipv6cpTerm(old(ipv6cp.state)) && ipv6cpTerm(ipv6cp.state) ==> ipv6cp.restartCount <= old(ipv6cp.restartCount)
+//@   ensures ipv6cpTerm(ipv6cp.state) ==> ipv6cpTerm(old(ipv6cp.state))
+
+//@ func (ipv6cp *IPV6CPStateMachine) receiveConfigureAck
+//@   requires pkt != nil && ipv6cp.inv
+//@   modifies ipv6cp.state, ipv6cp.restartCount, ipv6cp.identifier, ipv6cp.lastIdentifier, ipv6cp.restartTimer, ipv6cp.gT, ipv6cp.gA, ipv6cp.gB
+//@   ghost_exit ipv6cp.gB = ite(pkt.Identifier == old(ipv6cp.lastIdentifier) && (old(ipv6cp.state) == IPV6CPStateReqSent || old(ipv6cp.state) == IPV6CPStateAckSent), true, ipv6cp.gB)
+//@   ensures pkt.Identifier != old(ipv6cp.lastIdentifier) ==> ipv6cp.state == old(ipv6cp.state) && ipv6cp.gA == old(ipv6cp.gA) && ipv6cp.gB == old(ipv6cp.gB) && ipv6cp.restartCount == old(ipv6cp.restartCount) && ipv6cp.gT == old(ipv6cp.gT)
+//@   ensures old(ipv6cp.state) == IPV6CPStateOpened && pkt.Identifier == old(ipv6cp.lastIdentifier) ==> ipv6cp.state != IPV6CPStateOpened
+//@   ensures ipv6cp.state == IPV6CPStateOpened && old(ipv6cp.state) != IPV6CPStateOpened ==> old(ipv6cp.state) == IPV6CPStateAckSent && pkt.Identifier == old(ipv6cp.lastIdentifier)
+//@   ensures ipv6cp.termtimer
+//@   ensures ipv6cp.cfgtimer
+//@   ensures ipv6cp.inv
+//@   ensures ipv6cpTerm(old(ipv6cp.state)) && ipv6cpTerm(ipv6cp.state) ==> ipv6cp.restartCount <= old(ipv6cp.restartCount)
+//@   ensures ipv6cpTerm(ipv6cp.state) ==> ipv6cpTerm(old(ipv6cp.state))
+
+//@ func (ipv6cp *IPV6CPStateMachine) receiveConfigureNak
+//@   requires pkt != nil && ipv6cp.inv
+//@   modifies ipv6cp.state, ipv6cp.negotiated, ipv6cp.restartCount, ipv6cp.identifier, ipv6cp.lastIdentifier, ipv6cp.restartTimer, ipv6cp.gT, ipv6cp.gB
+//@   ensures pkt.Identifier != old(ipv6cp.lastIdentifier) ==> ipv6cp.state == old(ipv6cp.state) && ipv6cp.gA == old(ipv6cp.gA) && ipv6cp.gB == old(ipv6cp.gB) && ipv6cp.restartCount == old(ipv6cp.restartCount) && ipv6cp.gT == old(ipv6cp.gT)
+//@   ensures old(ipv6cp.state) == IPV6CPStateOpened && pkt.Identifier == old(ipv6cp.lastIdentifier) && err == nil ==> ipv6cp.state != IPV6CPStateOpened
+//@   ensures ipv6cp.state == IPV6CPStateOpened ==> old(ipv6cp.state) == IPV6CPStateOpened
+//@   ensures ipv6cp.termtimer
+//@   ensures ipv6cp.cfgtimer
+//@   ensures ipv6cp.inv
+//@   ensures ipv6cpTerm(old(ipv6cp.state)) && ipv6cpTerm(ipv6cp.state) ==> ipv6cp.restartCount <= old(ipv6cp.restartCount)
+//@   ensures ipv6cpTerm(ipv6cp.state) ==> ipv6cpTerm(old(ipv6cp.state))
+
+//@ func (ipv6cp *IPV6CPStateMachine) receiveConfigureReject
+//@   requires pkt != nil && ipv6cp.inv
+//@   modifies ipv6cp.state, ipv6cp.restartCount, ipv6cp.identifier, ipv6cp.lastIdentifier, ipv6cp.restartTimer, ipv6cp.gT, ipv6cp.gB
+//@   ensures pkt.Identifier != old(ipv6cp.lastIdentifier) ==> ipv6cp.state == old(ipv6cp.state) && ipv6cp.gA == old(ipv6cp.gA) && ipv6cp.gB == old(ipv6cp.gB) && ipv6cp.restartCount == old(ipv6cp.restartCount) && ipv6cp.gT == old(ipv6cp.gT)
+//@   ensures old(ipv6cp.state) == IPV6CPStateOpened && pkt.Identifier == old(ipv6cp.lastIdentifier) && err == nil ==> ipv6cp.state != IPV6CPStateOpened
+//@   ensures ipv6cp.state == IPV6CPStateOpened ==> old(ipv6cp.state) == IPV6CPStateOpened
+//@   ensures ipv6cp.termtimer
+//@   ensures ipv6cp.cfgtimer
+//@   ensures ipv6cp.inv
+//@   ensures ipv6cpTerm(old(ipv6cp.state)) && ipv6cpTerm(ipv6cp.state) ==> ipv6cp.restartCount <= old(ipv6cp.restartCount)
+//@   ensures ipv6cpTerm(ipv6cp.state) ==> ipv6cpTerm(old(ipv6cp.state))
+
+//@ func (ipv6cp *IPV6CPStateMachine) receiveTerminateRequest
+//@   requires pkt != nil && ipv6cp.inv
+//@   ghost sentCount mathint = 0
+//@   ghost firstSentCode mathint = 0 - 1
+//@   ghost firstSentID mathint = 0 - 1
+//@   modifies ipv6cp.state, ipv6cp.restartCount, ipv6cp.restartTimer, ipv6cp.gT
+//@   ensures ipv6cp.state != IPV6CPStateOpened
+//@   ensures old(ipv6cp.state) != IPV6CPStateInitial && old(ipv6cp.state) != IPV6CPStateStarting ==> firstSentCode == LCPCodeTermAck && firstSentID == pkt.Identifier
+//@   ensures ipv6cp.termtimer
+//@   ensures ipv6cp.cfgtimer
+//@   ensures ipv6cp.inv
+//@   ensures ipv6cpTerm(old(ipv6cp.state)) && ipv6cpTerm(ipv6cp.state) ==> ipv6cp.restartCount <= old(ipv6cp.restartCount)
+//@   ensures old(ipv6cp.state) == IPV6CPStateOpened ==> ipv6cp.state == IPV6CPStateStopping && ipv6cp.restartCount == 0
+//@   ensures ipv6cpTerm(ipv6cp.state) ==> ipv6cpTerm(old(ipv6cp.state)) || old(ipv6cp.state) == IPV6CPStateOpened
+
+//@ func (ipv6cp *IPV6CPStateMachine) receiveTerminateAck
+//@   requires pkt != nil && ipv6cp.inv
+//@   modifies ipv6cp.state, ipv6cp.restartCount, ipv6cp.identifier, ipv6cp.lastIdentifier, ipv6cp.restartTimer, ipv6cp.gT, ipv6cp.gB
+//@   ensures ipv6cp.state != IPV6CPStateOpened
+//@   ensures ipv6cp.termtimer
+//@   ensures ipv6cp.cfgtimer
+//@   ensures ipv6cp.inv
+//@   ensures ipv6cpTerm(old(ipv6cp.state)) && ipv6cpTerm(ipv6cp.state) ==> ipv6cp.restartCount <= old(ipv6cp.restartCount)
+//@   ensures ipv6cpTerm(ipv6cp.state) ==> ipv6cpTerm(old(ipv6cp.state))
+
+//@ func (ipv6cp *IPV6CPStateMachine) closeInternal
+//@   requires ipv6cp.inv
+//@   modifies ipv6cp.state, ipv6cp.restartCount, ipv6cp.identifier, ipv6cp.restartTimer, ipv6cp.gT
+//@   ensures ipv6cp.state != IPV6CPStateOpened
+//@   ensures ipv6cp.termtimer
+//@   ensures ipv6cp.cfgtimer
+//@   ensures ipv6cp.inv
+//@   ensures old(ipv6cp.state) >= IPV6CPStateReqSent ==> ipv6cp.state == IPV6CPStateClosing && (ipv6cp.restartCount == ipv6cpMax(ipv6cp.config.MaxRetransmit) - 1 || ipv6cp.config.MaxRetransmit == 0 - 9223372036854775808)
+//@   ensures ipv6cpTerm(ipv6cp.state) ==> ipv6cpTerm(old(ipv6cp.state)) || old(ipv6cp.state) >= IPV6CPStateReqSent
+//@   ensures ipv6cpTerm(old(ipv6cp.state)) && ipv6cpTerm(ipv6cp.state) ==> ipv6cp.restartCount <= old(ipv6cp.restartCount)
+
+//@ func (ipv6cp *IPV6CPStateMachine) Down
+//@   ensures ipv6cp.state != IPV6CPStateOpened
+//@   ensures ipv6cpTerm(locked(ipv6cp.state)) && ipv6cpTerm(ipv6cp.state) ==> ipv6cp.restartCount <= locked(ipv6cp.restartCount)
+//@   ensures ipv6cpTerm(ipv6cp.state) ==> ipv6cpTerm(locked(ipv6cp.state))
+
+//@ func (ipv6cp *IPV6CPStateMachine) Close
+//@   ensures ipv6cp.state != IPV6CPStateOpened
+//@   ensures ipv6cpTerm(locked(ipv6cp.state)) && ipv6cpTerm(ipv6cp.state) ==> ipv6cp.restartCount <= locked(ipv6cp.restartCount)
+//@   ensures ipv6cpTerm(ipv6cp.state) && !ipv6cpTerm(locked(ipv6cp.state)) ==> (ipv6cp.restartCount == ipv6cpMax(ipv6cp.config.MaxRetransmit) - 1 || ipv6cp.config.MaxRetransmit == 0 - 9223372036854775808)
+
+//@ func (ipv6cp *IPV6CPStateMachine) Up
+//@   ensures ipv6cp.state == IPV6CPStateOpened ==> locked(ipv6cp.state) == IPV6CPStateOpened
+//@   ensures ipv6cpTerm(locked(ipv6cp.state)) && ipv6cpTerm(ipv6cp.state) ==> ipv6cp.restartCount <= locked(ipv6cp.restartCount)
+//@   ensures ipv6cpTerm(ipv6cp.state) ==> ipv6cpTerm(locked(ipv6cp.state))
+
+//@ func (ipv6cp *IPV6CPStateMachine) Open
+//@   ensures ipv6cp.state == IPV6CPStateOpened ==> locked(ipv6cp.state) == IPV6CPStateOpened
+//@   ensures ipv6cpTerm(locked(ipv6cp.state)) && ipv6cpTerm(ipv6cp.state) ==> ipv6cp.restartCount <= locked(ipv6cp.restartCount)
+//@   ensures ipv6cpTerm(ipv6cp.state) ==> ipv6cpTerm(locked(ipv6cp.state))
+
+//@ func (ipv6cp *IPV6CPStateMachine) timeout
+//@   ghost sentCount mathint = 0
+//@   ghost firstSentCode mathint = 0 - 1
+//@   ghost firstSentID mathint = 0 - 1
+//@   ensures ipv6cp.state == IPV6CPStateClosing || ipv6cp.state == IPV6CPStateStopping ==> firstSentCode == LCPCodeTermRequest && sentCount == 1
+//@   ensures ipv6cp.state == IPV6CPStateReqSent || ipv6cp.state == IPV6CPStateAckRcvd || ipv6cp.state == IPV6CPStateAckSent ==> firstSentCode == LCPCodeConfigRequest && sentCount == 1
+//@   ensures locked(ipv6cp.restartCount) > 0 && (locked(ipv6cp.state) == IPV6CPStateReqSent || locked(ipv6cp.state) == IPV6CPStateAckRcvd || locked(ipv6cp.state) == IPV6CPStateAckSent || locked(ipv6cp.state) == IPV6CPStateClosing || locked(ipv6cp.state) == IPV6CPStateStopping) ==> ipv6cp.restartCount == locked(ipv6cp.restartCount) - 1 && (ipv6cp.state == locked(ipv6cp.state) || (locked(ipv6cp.state) == IPV6CPStateAckRcvd && ipv6cp.state == IPV6CPStateReqSent))
+//@   ensures locked(ipv6cp.restartCount) <= 0 ==> ipv6cp.state != IPV6CPStateReqSent && ipv6cp.state != IPV6CPStateAckRcvd && ipv6cp.state != IPV6CPStateAckSent && ipv6cp.state != IPV6CPStateClosing && ipv6cp.state != IPV6CPStateStopping
+//@   ensures ipv6cp.state == IPV6CPStateOpened ==> locked(ipv6cp.state) == IPV6CPStateOpened
+//@   ensures ipv6cpTerm(locked(ipv6cp.state)) && ipv6cpTerm(ipv6cp.state) ==> ipv6cp.restartCount <= locked(ipv6cp.restartCount)
+//@   ensures ipv6cpTerm(ipv6cp.state) ==> ipv6cpTerm(locked(ipv6cp.state))
+
+//@ func (ipv6cp *IPV6CPStateMachine) ReceivePacket
+
+//@ func (ipv6cp *IPV6CPStateMachine) IsOpened
+//@   ensures result ==> ipv6cp.gA && ipv6cp.gB
+
+//@ func (ipv6cp *IPV6CPStateMachine) GetState
+//@   ensures result == IPV6CPStateOpened ==> ipv6cp.gA && ipv6cp.gB
 
 // Ownership: a session keeps its own copy of the client MAC. The receive loop
 // hands handlers slices of its single reused frame buffer, so a stored alias
